@@ -886,4 +886,226 @@ theorem rlpDecodeList_inv (inp : Bytes) (items : List Bytes) (h : rlpDecodeList 
   rw [hn, List.take_length] at h1
   exact ⟨h1, h3, h4⟩
 
+/-! ### the executable oracles of `Verif.Spec.Rlp` agree with the declarative statements -/
+
+theorem encodeString_inj (s t : Bytes) (hs : s.length ≤ maxLongLength) (ht : t.length ≤ maxLongLength)
+    (h : encodeString s = encodeString t) : s = t := by
+  have h1 := rlpDecodeString_encodeString s hs
+  have h2 := rlpDecodeString_encodeString t ht
+  rw [h, h2] at h1
+  cases h1; rfl
+
+theorem encodeList_inj (xs ys : List Bytes) (hx : ∀ f ∈ xs, IsFrame f) (hy : ∀ f ∈ ys, IsFrame f)
+    (hxl : xs.flatten.length ≤ maxLongLength) (hyl : ys.flatten.length ≤ maxLongLength)
+    (h : encodeList xs = encodeList ys) : xs = ys := by
+  have h1 := rlpDecodeList_encodeList xs hx hxl
+  have h2 := rlpDecodeList_encodeList ys hy hyl
+  rw [h, h2] at h1
+  cases h1; rfl
+
+/-- the encoding of a string is a prefix of at most nine bytes followed by the string -/
+theorem encodeString_suffix (s : Bytes) (hs : s.length ≤ maxLongLength) :
+    ∃ pre, encodeString s = pre ++ s ∧ pre.length ≤ 9 := by
+  unfold encodeString
+  split
+  · split
+    · exact ⟨[], rfl, by simp⟩
+    · exact ⟨_, rfl, header_length_le _ _ (by simp [maxLongLength])⟩
+  · exact ⟨_, rfl, header_length_le _ _ hs⟩
+
+theorem specDecodeString_sound (inp s : Bytes) (h : specDecodeString inp = some s) :
+    inp = encodeString s ∧ s.length ≤ maxLongLength := by
+  unfold specDecodeString at h
+  obtain ⟨k, _, hk⟩ := List.exists_of_findSome?_eq_some h
+  simp only [] at hk
+  split at hk
+  · rename_i hc
+    simp only [Bool.and_eq_true, decide_eq_true_eq, beq_iff_eq] at hc
+    cases hk
+    exact ⟨hc.2.symm, hc.1.2⟩
+  · cases hk
+
+theorem specDecodeString_iff (inp s : Bytes) :
+    specDecodeString inp = some s ↔ (inp = encodeString s ∧ s.length ≤ maxLongLength) := by
+  constructor
+  · exact specDecodeString_sound inp s
+  · rintro ⟨rfl, hs⟩
+    obtain ⟨pre, hpre, hl⟩ := encodeString_suffix s hs
+    have hsome : (specDecodeString (encodeString s)).isSome := by
+      unfold specDecodeString
+      rw [List.findSome?_isSome_iff]
+      refine ⟨pre.length, by simp; omega, ?_⟩
+      simp only []
+      rw [hpre]
+      have : (pre ++ s).drop pre.length = s := by simp
+      rw [this, ← hpre]
+      have : pre.length ≤ (encodeString s).length := by rw [hpre]; simp
+      simp [hs, this]
+    obtain ⟨s', hs'⟩ := Option.isSome_iff_exists.mp hsome
+    obtain ⟨h1, h2⟩ := specDecodeString_sound _ _ hs'
+    rw [hs', encodeString_inj s s' hs h2 h1]
+
+theorem isFrameB_iff (f : Bytes) : isFrameB f = true ↔ IsFrame f := by
+  unfold isFrameB IsFrame
+  rw [Bool.or_eq_true]
+  constructor
+  · rintro (h | h)
+    · left
+      split at h
+      · rename_i b; exact ⟨b, rfl, by simpa using h⟩
+      · cases h
+    · right
+      rw [List.any_eq_true] at h
+      obtain ⟨k, _, hk⟩ := h
+      simp only [Bool.and_eq_true, Bool.or_eq_true, decide_eq_true_eq, beq_iff_eq] at hk
+      obtain ⟨⟨hk1, hk2⟩, hn, hh⟩ := hk
+      refine ⟨f.drop k, by rw [List.length_drop]; exact hn, ?_⟩
+      have : (f.drop k).length = f.length - k := by simp
+      rw [this]
+      rcases hh with hh | hh
+      · left; rw [← hh]; simp
+      · right; rw [← hh]; simp
+  · rintro (⟨b, rfl, hb⟩ | ⟨p, hp, hh⟩)
+    · left; simpa using hb
+    · right
+      rw [List.any_eq_true]
+      have key : ∀ base, f = header base p.length ++ p →
+          (f.take (header base p.length).length = header base p.length) ∧
+          f.length - (header base p.length).length = p.length ∧ (header base p.length).length ≤ f.length := by
+        intro base hf
+        subst hf
+        simp
+      rcases hh with hh | hh
+      · obtain ⟨k1, k2, k3⟩ := key _ hh
+        refine ⟨(header 0x80 p.length).length, ?_, ?_⟩
+        · have := header_length_le 0x80 p.length hp
+          simp; omega
+        · have := header_length_pos 0x80 p.length
+          simp only [Bool.and_eq_true, Bool.or_eq_true, decide_eq_true_eq, beq_iff_eq]
+          rw [k2]
+          exact ⟨⟨this, k3⟩, hp, .inl k1⟩
+      · obtain ⟨k1, k2, k3⟩ := key _ hh
+        refine ⟨(header 0xc0 p.length).length, ?_, ?_⟩
+        · have := header_length_le 0xc0 p.length hp
+          simp; omega
+        · have := header_length_pos 0xc0 p.length
+          simp only [Bool.and_eq_true, Bool.or_eq_true, decide_eq_true_eq, beq_iff_eq]
+          rw [k2]
+          exact ⟨⟨this, k3⟩, hp, .inr k1⟩
+
+
+theorem length_le_flatten_length (items : List Bytes) (hfr : ∀ f ∈ items, IsFrame f) :
+    items.length ≤ items.flatten.length := by
+  induction items with
+  | nil => simp
+  | cons f tl ih =>
+    have := isFrame_length_pos f (hfr f (by simp))
+    have := ih (fun g hg => hfr g (by simp [hg]))
+    simp only [List.flatten_cons, List.length_append, List.length_cons]; omega
+
+theorem splitFrames_nil (fuel : Nat) : splitFrames fuel [] = some [] := by
+  cases fuel <;> rfl
+
+theorem splitFrames_zero_cons (a : UInt8) (p : Bytes) : splitFrames 0 (a :: p) = none := rfl
+
+theorem splitFrames_succ_cons (fuel : Nat) (a : UInt8) (p : Bytes) :
+    splitFrames (fuel + 1) (a :: p) =
+      (List.range ((a :: p).length + 1)).findSome? fun l =>
+        if decide (1 ≤ l) && isFrameB ((a :: p).take l) then
+          (splitFrames fuel ((a :: p).drop l)).map ((a :: p).take l :: ·)
+        else none := rfl
+
+theorem splitFrames_sound : ∀ (fuel : Nat) (p : Bytes) (items : List Bytes),
+    splitFrames fuel p = some items → items.flatten = p ∧ ∀ f ∈ items, IsFrame f := by
+  intro fuel
+  induction fuel with
+  | zero =>
+    intro p items h
+    cases p with
+    | nil => rw [splitFrames_nil] at h; cases h; simp
+    | cons a p => rw [splitFrames_zero_cons] at h; cases h
+  | succ fuel ih =>
+    intro p items h
+    cases p with
+    | nil => rw [splitFrames_nil] at h; cases h; simp
+    | cons a p =>
+      rw [splitFrames_succ_cons] at h
+      generalize a :: p = q at h ⊢
+      obtain ⟨l, _, hl⟩ := List.exists_of_findSome?_eq_some h
+      split at hl
+      · rename_i hc
+        simp only [Bool.and_eq_true, decide_eq_true_eq] at hc
+        rw [Option.map_eq_some_iff] at hl
+        obtain ⟨tl, htl, rfl⟩ := hl
+        obtain ⟨h1, h2⟩ := ih _ _ htl
+        refine ⟨by simp [h1], ?_⟩
+        intro f hf
+        rcases List.mem_cons.mp hf with rfl | hf
+        · exact (isFrameB_iff _).mp hc.2
+        · exact h2 f hf
+      · cases hl
+
+theorem splitFrames_isSome (items : List Bytes) (hfr : ∀ f ∈ items, IsFrame f) :
+    ∀ fuel, items.length ≤ fuel → (splitFrames fuel items.flatten).isSome := by
+  induction items with
+  | nil => intro fuel _; simp [splitFrames_nil]
+  | cons f tl ih =>
+    intro fuel hfuel
+    have hf := hfr f (by simp)
+    have hfp := isFrame_length_pos f hf
+    cases fuel with
+    | zero => simp at hfuel
+    | succ fuel =>
+      simp only [List.flatten_cons]
+      have e1 : (f ++ tl.flatten).take f.length = f := by simp
+      have e2 : (f ++ tl.flatten).drop f.length = tl.flatten := by simp
+      generalize hq : f ++ tl.flatten = q at *
+      have hlen : f.length ≤ q.length := by rw [← hq]; simp
+      cases q with
+      | nil => simp only [List.length_nil] at hlen; omega
+      | cons a p =>
+        rw [splitFrames_succ_cons, List.findSome?_isSome_iff]
+        refine ⟨f.length, by simp only [List.mem_range]; omega, ?_⟩
+        rw [e1, e2, (isFrameB_iff f).mpr hf]
+        have := ih (fun g hg => hfr g (by simp [hg])) fuel (by simpa using hfuel)
+        simp [hfp, this]
+
+theorem specDecodeList_sound (inp : Bytes) (items : List Bytes) (h : specDecodeList inp = some items) :
+    inp = encodeList items ∧ (∀ f ∈ items, IsFrame f) ∧ items.flatten.length ≤ maxLongLength := by
+  unfold specDecodeList at h
+  obtain ⟨k, _, hk⟩ := List.exists_of_findSome?_eq_some h
+  simp only [] at hk
+  split at hk
+  · rename_i hc
+    simp only [Bool.and_eq_true, decide_eq_true_eq, beq_iff_eq] at hc
+    obtain ⟨h1, h2⟩ := splitFrames_sound _ _ _ hk
+    refine ⟨?_, h2, by rw [h1]; exact hc.1.2⟩
+    unfold encodeList
+    rw [h1, ← hc.2]
+    simp
+  · cases hk
+
+theorem specDecodeList_iff (inp : Bytes) (items : List Bytes) :
+    specDecodeList inp = some items ↔
+      (inp = encodeList items ∧ (∀ f ∈ items, IsFrame f) ∧ items.flatten.length ≤ maxLongLength) := by
+  constructor
+  · exact specDecodeList_sound inp items
+  · rintro ⟨rfl, hfr, hlen⟩
+    have hsome : (specDecodeList (encodeList items)).isSome := by
+      unfold specDecodeList
+      rw [List.findSome?_isSome_iff]
+      have hp := header_length_pos 0xc0 items.flatten.length
+      have hl := header_length_le 0xc0 items.flatten.length hlen
+      refine ⟨(header 0xc0 items.flatten.length).length, by simp only [List.mem_range]; omega, ?_⟩
+      unfold encodeList
+      generalize hH : header 0xc0 items.flatten.length = H at *
+      have e1 : (H ++ items.flatten).drop H.length = items.flatten := by simp
+      have e2 : (H ++ items.flatten).take H.length = H := by simp
+      rw [e1, e2]
+      have := splitFrames_isSome items hfr items.flatten.length (length_le_flatten_length items hfr)
+      simp [-List.length_flatten, hp, hlen, this, hH]
+    obtain ⟨xs, hxs⟩ := Option.isSome_iff_exists.mp hsome
+    obtain ⟨h1, h2, h3⟩ := specDecodeList_sound _ _ hxs
+    rw [hxs, encodeList_inj items xs hfr h2 hlen h3 h1]
+
 end Verif.Proofs.RlpExact
